@@ -1,8 +1,10 @@
 package c15
 
 import (
+	"context"
 	"encoding/xml"
 	"fmt"
+	bpmn "github.com/olive-io/bpmn/v2"
 	"os"
 	"path/filepath"
 	"reflect"
@@ -284,6 +286,10 @@ type deco struct {
 	Olive     bool   `json:"olive"`
 	Text      string `json:"text"`
 	TimerKind int    `json:"timer"`
+	// PadRefs: the <incoming> / <outgoing> references are written the way a
+	// pretty-printer leaves them - on a line of their own, i.e. with white
+	// space around the id
+	PadRefs bool `json:"padRefs,omitempty"`
 }
 
 type descriptor struct {
@@ -357,7 +363,24 @@ func document(d *descriptor) (string, *gen.Program) {
 		x = strings.Replace(x, `xmlns:olive=`, `xmlns:bpmndi="http://www.omg.org/spec/BPMN/20100524/DI" xmlns:dc="http://www.omg.org/spec/DD/20100524/DC" xmlns:di="http://www.omg.org/spec/DD/20100524/DI" xmlns:olive=`, 1)
 	}
 	x = strings.Replace(x, "</bpmn:definitions>", extra.String()+"</bpmn:definitions>", 1)
+	if d.Deco.PadRefs {
+		x = strings.ReplaceAll(x, "<bpmn:incoming>", "<bpmn:incoming>\n        ")
+		x = strings.ReplaceAll(x, "</bpmn:incoming>", "\n      </bpmn:incoming>")
+		x = strings.ReplaceAll(x, "<bpmn:outgoing>", "<bpmn:outgoing> ")
+		x = strings.ReplaceAll(x, "</bpmn:outgoing>", "\t</bpmn:outgoing>")
+	}
 	return x, prog
+}
+
+// constructible reports whether the engine can wire an instance of the model.
+func constructible(defs *schema.Definitions) (bool, string) {
+	ctx, cancel := context.WithCancel(context.Background())
+	defer cancel()
+	_, err := bpmn.NewEngine().NewProcess(defs, bpmn.WithContext(ctx))
+	if err != nil {
+		return false, err.Error()
+	}
+	return true, ""
 }
 
 // engineLeg runs the lock-step oracle on a parsed model and returns a digest
@@ -402,7 +425,13 @@ func check(d *descriptor, withEngine bool) (sym, det, inconcl string) {
 	if sym != "" {
 		return sym, det, ""
 	}
-	if !withEngine {
+	// "the engine behaves identically": first of all it can wire both models or neither
+	ok1, e1 := constructible(m1)
+	ok2, e2 := constructible(m2)
+	if ok1 != ok2 {
+		return "behaviour", fmt.Sprintf("the engine can wire the original model: %v (%s), the re-parsed model: %v (%s)", ok1, e1, ok2, e2), ""
+	}
+	if !withEngine || !ok1 {
 		return "", "", ""
 	}
 	var picks []int
@@ -443,7 +472,7 @@ func drawCase(rt *rapid.T) *descriptor {
 	}
 	c.Schedule = rapid.SliceOfN(rapid.IntRange(0, 3), 0, 12).Draw(rt, "schedule")
 	return &descriptor{Case: c, Deco: deco{Collab: rapid.Bool().Draw(rt, "collab"), DI: rapid.Bool().Draw(rt, "di"), Docs: rapid.Bool().Draw(rt, "docs"),
-		DataObj: true, Olive: rapid.Bool().Draw(rt, "olive"), TimerKind: rapid.IntRange(0, 2).Draw(rt, "timer"),
+		DataObj: true, Olive: rapid.Bool().Draw(rt, "olive"), TimerKind: rapid.IntRange(0, 2).Draw(rt, "timer"), PadRefs: rapid.IntRange(0, 4).Draw(rt, "padRefs") == 0,
 		Text: rapid.SampledFrom([]string{"plain", "a < b && c > d", `"quoted" 'text'`, "   ", "ünïcödé\ttab", "line1\nline2"}).Draw(rt, "text")}}
 }
 
